@@ -154,6 +154,7 @@ RetOwner(op, tag, tag2) ==
       [] op \in {"get", "get_entry", "peek", "peek_entry", "contains", "remove",
                  "remove_entry", "touch"} -> {"C04"}
       [] op \in {"get_lru", "peek_lru", "peek_mru", "remove_lru", "remove_mru", "debug"} -> {"C05"}
+      [] op \in {"set_max_size", "clear"} -> {"C03"}
       [] op = "mutate" -> {"C11"}
       [] op = "retain" -> {"C15"}
       [] op \in CapacityOps \cup {"capacity"} -> {"C13"}
@@ -196,10 +197,14 @@ CallBad(pre, a, e, g, stl, lst) ==
     IN Guard(
     \* 1. constructive operator vs. log
        {<<"C05", "order">>    : z \in {1} \cap (IF sameKeys /\ KeySeq(o.s.ord) # KeySeq(post.ord) THEN {1} ELSE {})}
+    \* entries that left / stayed against the specification: an operation that is
+    \* entitled to evict and succeeded owes them to C03; retain and the iterators to
+    \* their own properties; anywhere else an entry that vanished was LOST, which the
+    \* map property C04 forbids (and C03: nothing leaves without being asked for)
     \cup {<<p, "keyset">>     : p \in IF sameKeys THEN {} ELSE
-                                  IF a.op \in EvictingOps THEN {"C03"}
+                                  IF a.op \in EvictingOps /\ Succeeded(a, [ret |-> e.ret]) THEN {"C03"}
                                   ELSE IF a.op = "retain" THEN {"C15"}
-                                  ELSE IF a.op \in IterKinds THEN {"C12"} ELSE {"C04"}}
+                                  ELSE IF a.op \in IterKinds THEN {"C12"} ELSE {"C04", "C03"}}
     \cup {<<p, "stored_sizes">> : p \in IF sameKeys /\ \E i \in DOMAIN post.ord :
                                            LET en == post.ord[i] IN
                                            \/ (en.k \notin replaced /\ EntOf(o.s, en.k).kh # en.kh)
@@ -213,18 +218,20 @@ CallBad(pre, a, e, g, stl, lst) ==
                                        THEN {"C02"} \cup (IF a.op = "mutate" THEN {"C11"} ELSE {})
                                        ELSE {}}
     \cup {<<"C01", "max_size">>   : z \in IF o.s.max # post.max THEN {1} ELSE {}}
-    \cup {<<"C13", "geometry">>   : z \in IF sameKeys /\ post.alive /\ (o.s.b # post.b \/ o.s.t # post.t) THEN {1} ELSE {}}
+    \* table geometry is C13's business for the capacity operations and for insertions
+    \* (growth law); what removals, clear or drain do to it no listed property states
+    \cup {<<"C13", "geometry">>   : z \in IF sameKeys /\ post.alive
+                                            /\ a.op \in CapacityOps \cup {"insert", "try_insert"}
+                                            /\ (o.s.b # post.b \/ o.s.t # post.t) THEN {1} ELSE {}}
     \cup {<<p, "alive">>          : p \in IF o.s.alive # post.alive THEN {"C12"} ELSE {}}
     \cup {<<p, "ret">>            : p \in IF sameKeys /\ o.ret # e.ret
                                          THEN RetOwner(a.op, o.ret.tag, e.ret.tag) ELSE {}}
+    \* WHICH objects were dropped / handed back is stated by the property that owns
+    \* the call's result; C06 itself is the conservation law C06_Step below
     \cup {<<p, "dropped">>        : p \in IF sameKeys /\ NormObjs(a, pre, o.dropped) # NormObjs(a, pre, x.dropped)
-                                         THEN {"C06"} \cup (IF a.op \in IterKinds THEN {"C12"} ELSE {})
-                                              \cup (IF a.op = "retain" THEN {"C15"} ELSE {})
-                                              \cup (IF forgot THEN {"C17"} ELSE {})
-                                         ELSE {}}
+                                         THEN RetOwner(a.op, o.ret.tag, e.ret.tag) ELSE {}}
     \cup {<<p, "handed">>         : p \in IF sameKeys /\ o.handed # x.handed
-                                         THEN {"C06"} \cup (IF a.op \in IterKinds THEN {"C12"} ELSE {})
-                                         ELSE {}}
+                                         THEN RetOwner(a.op, o.ret.tag, e.ret.tag) ELSE {}}
     \cup {<<p, "leaked">>         : p \in IF sameKeys /\ o.leaked # x.leaked
                                          THEN {"C06"} \cup (IF forgot THEN {"C17"} ELSE {}) ELSE {}}
     \cup {<<p, "fresh">>          : p \in IF sameKeys /\ post.alive /\ o.fresh # x.fresh THEN {"C06", "C04"} ELSE {}}
@@ -297,7 +304,9 @@ CrashBad(pre, a, e, stl) ==
     \cup {<<"C16", "closure_order">> : z \in IF kind = "closure" /\
                                                Rel(pre.ord, KeysOf(post.ord)) # KeySeq(post.ord)
                                             THEN {1} ELSE {}}
-    \cup {<<"C16", "clone_source">> : z \in IF a.op = "clone" /\ (post # pre \/ e.fp # e.pre_fp) THEN {1} ELSE {}}
+    \* clone works through &self: even when it unwinds, the source must be untouched (C19)
+    \cup {<<p, "clone_source">> : p \in IF a.op = "clone" /\ (post # pre \/ e.fp # e.pre_fp)
+                                        THEN {"C16", "C19"} ELSE {}}
 
 (* C17: what must hold right after an iterator was leaked with mem::forget. *)
 (* Deliberately declarative: the property does not say WHAT remains in a    *)
@@ -341,10 +350,16 @@ ForgetBad(pre, a, e) ==
 (* belongs to them and to no other property.                                *)
 Retaint(bad, tn) ==
     IF tn = "none" THEN bad
-    ELSE {IF pf[2] \in {"shrink_raises_with_tombstones",         \* finding F5 stays with C13
-                       "C01_Bound"}                              \* C01 speaks of every call that returns
-          THEN pf
-          ELSE <<IF tn = "forget" THEN "C17" ELSE "C16", pf[2]>> : pf \in bad}
+    ELSE LET towner == IF tn = "forget" THEN "C17" ELSE "C16" IN
+         UNION { IF pf[2] = "shrink_raises_with_tombstones" THEN {pf}      \* finding F5 stays with C13
+                 ELSE IF pf[2] = "C01_Bound"
+                      \* C01 speaks of every call that returns; C16 demands the bound only after
+                      \* closure panics (facet closure_bound of the crash event itself)
+                      THEN {pf}
+                 ELSE IF pf[2] \in {"sum_recorded", "clone_source"}
+                      \* C02 / C19 speak of every point / every &self call, C16 / C17 of the same facts
+                      THEN {pf, <<towner, pf[2]>>}
+                 ELSE {<<towner, pf[2]>>} : pf \in bad }
 
 -----------------------------------------------------------------------------
 
